@@ -316,10 +316,32 @@ pub fn record(a: &Args) -> Report {
         sels.push((twins[..tt].to_vec(), vec![]));
       }
     }
+    // shares of unequal length are refused — wherever the odd ones sit, and also when a short and
+    // a long one compensate each other (codes: 1 = last y removed, 2 = one y appended)
     if k >= 1 && mine.len() >= 2 {
       let mut drop = vec![0u8; perm.len()];
       drop[1] = 1;
       sels.push((perm.clone(), drop));
+      let mut long1 = vec![0u8; perm.len()];
+      long1[1] = 2;
+      sels.push((perm.clone(), long1));
+      if perm.len() >= 3 {
+        let mut comp = vec![0u8; perm.len()];
+        comp[1] = 1;
+        comp[2] = 2;
+        sels.push((perm.clone(), comp));
+        let mut comp0 = vec![0u8; perm.len()];
+        comp0[0] = 1;
+        comp0[perm.len() - 1] = 2;
+        sels.push((perm.clone(), comp0));
+      }
+      if perm.len() >= tt + 2 {
+        // among the surplus shares only
+        let mut tail = vec![0u8; perm.len()];
+        tail[perm.len() - 2] = 1;
+        tail[perm.len() - 1] = 2;
+        sels.push((perm.clone(), tail));
+      }
     }
     for (sel, drop) in sels {
       let drop = if drop.is_empty() { vec![0u8; sel.len()] } else { drop };
@@ -330,6 +352,8 @@ pub fn record(a: &Args) -> Report {
           let mut s = mine[*i].1.clone();
           if *d == 1 {
             s.y.pop();
+          } else if *d == 2 {
+            s.y.push(Fp::ONE);
           }
           s
         })
@@ -500,16 +524,20 @@ pub fn cert(a: &Args) -> Report {
   let mut rng = rng_from(seed, 202);
   let oprf = OprfServer::new(vec![0, 1, 2]).expect("oprf");
   let p = p_big();
+  // --small N: N sharings (different measurements) at EACH of the thresholds 2..6 — a dealer whose
+  // random source degenerates for some (threshold, message, coins) shows up only across many sharings
+  let small = a.u64("small", 0);
+  let groups = if small > 0 { small * 5 } else { groups };
   for g in 0..groups {
     // every threshold 2, 3, 4, ... is certified in turn (a dealing bug may depend on t mod k)
-    let t: u32 = if a.flag("sweep") { a.u64("mint", 2) as u32 + (g as u32) } else { match g % 5 { 0 => 2, 1 => 3, 2 => maxt, _ => rng.gen_range(2..=maxt) } };
+    let t: u32 = if small > 0 { 2 + (g % 5) as u32 } else if a.flag("sweep") { a.u64("mint", 2) as u32 + (g as u32) } else { match g % 5 { 0 => 2, 1 => 3, 2 => maxt, _ => rng.gen_range(2..=maxt) } };
     if t > maxt {
       break;
     }
     let n = t as usize + 2;
     let m: Vec<u8> = (0..rng.gen_range(0..40)).map(|_| rng.gen()).collect();
     let mut m = m;
-    m.push(g as u8);
+    m.extend((g as u32).to_le_bytes());
     let e = vec![(g % 3) as u8];
     let src = if g % 4 == 3 { "oprf" } else { "local" };
     let mut pts: Vec<(BigUint, BigUint)> = Vec::new();
